@@ -15,7 +15,18 @@
 (T) code -> spec: the worker logs, the digests of the results computed inside the workers and of the results returned to
     the caller are validated by Trace_Executor.tla: "order" (position k holds what task k computed), "repro" (same seed =>
     identical returned lists, whatever the schedule), "flag" (analytic results equal serial execution, compared at 1e-10
-    by the harness; result structure equal)."""
+    by the harness; result structure equal).
+(B) batch layer, ExecutorMix.tla (extends Executor) + ExecutorMixGen.tla: the batch has a COMPOSITION (mask: which circuits
+    have finite shots, i.e. show the seed they are handed; analytic circuits never do) and may be LARGE (beyond ten
+    circuits; multiprocessing.Pool hands such batches over in chunks, which the model follows).  TLC checks the same
+    property-level invariants on observations (MixOrderPreserved, MixReproducible, AnalyticSeedFree) for every composition
+    of the small batch (every interleaving, FIFO and arbitrary dispatch, two executions) and for batches of 11+ circuits
+    (periodic compositions, chunked and unchunked pools); the variants "seed-iff-first-finite" and "collect-by-text-id"
+    must be rejected, and must pass when compositions are restricted to those starting with a finite-shot circuit /
+    batches to at most ten circuits (the model shows which inputs a replay has to contain).  ExecutorMixGen emits every
+    (composition, completion order) of the small batch and randomly simulated behaviours of the large ones; the driver
+    builds the batch from the mask and forces the completion order, per execution of a device (the composition changes
+    between consecutive executions); the recorded runs are decided by Trace_Executor.tla as in (T)."""
 import concurrent.futures as cf
 import json
 import os
@@ -33,12 +44,42 @@ from .c65 import SMALL, model_consts, uniq
 
 PY = sys.executable
 INVS = ["TypeOK", "WorkerBound", "ExactlyOnce", "OrderPreserved", "Reproducible", "SeedsBeforeDispatch", "RngOK", "Progress"]
+MIXINVS = ["MixTypeOK", "WorkerBound", "ExactlyOnce", "MixOrderPreserved", "MixReproducible", "AnalyticSeedFree", "SeedsBeforeDispatch",
+           "RngOK", "MixProgress"]
+# variant -> (constants in which TLC must reject it, constants in which it must pass): the boundary of the input class
+MIXBUGS = {"seed-iff-first-finite": (dict(tasks=range(0, 4), filt="any", rounds=2), dict(tasks=range(0, 4), filt="first-finite", rounds=2)),
+           "collect-by-text-id": (dict(tasks=[11, 12], filt="all-finite", rounds=1), dict(tasks=[9, 10], filt="all-finite", rounds=1))}
 BUGS = {"shared-rng": True, "draw-at-dispatch": False, "collect-as-completed": True}      # bug -> Fifo used to expose it
 
 
-def tlc_models(tier, n, wcounts):
+def mix_consts(tasks, workers, fifo, rounds=1, seeds="{5}", allupto=4, filt="any", chunks=("single",), bug="none"):
+    c = model_consts(tasks, workers, fifo, device=True, rounds=rounds, seeds=seeds)
+    c.update({"AllUpTo": allupto, "MaskFilter": f'"{filt}"', "ChunkModes": "{" + ",".join(f'"{m}"' for m in chunks) + "}", "MixBug": f'"{bug}"'})
+    return c
+
+
+def mix_cfg(consts, invariants, view=True, **kw):
+    return lib.cfg(init="MixInit", next_="MixNext", constants=consts, invariants=invariants, view="MixView" if view else None, **kw)
+
+
+def tlc_models(tier, n, wcounts, mixw, bign, bigw, simseed):
     nm = 4 if tier == "quick" else 5
+    quick = tier == "quick"
+    both = ("single", "pool")
     jobs = {
+        # ---- batch layer: compositions x schedules of the small batch (exhaustive), large batches (simulation)
+        "mix_gen": lambda: lib.run_tlc("ExecutorMixGen", mix_cfg(mix_consts([n], mixw, True, allupto=n), MIXINVS, view=False, constraints=["Emit"]),
+                                       lib.workdir("C31", "mix_gen"), timeout=1500, workers=SMALL),
+        "mix_sim": lambda: lib.run_tlc("ExecutorMixGen", mix_cfg(mix_consts(bign, bigw, True, allupto=nm, chunks=both), MIXINVS[:-1], view=False,
+                                                                 constraints=["Emit"]),
+                                       lib.workdir("C31", "mix_sim"), timeout=1500, workers=1, simulate=f"num={140 if quick else 900}", seed=simseed, depth=400),
+        "mix_small": lambda: lib.run_tlc("ExecutorMix", mix_cfg(mix_consts(range(0, nm + 1), [1, 2, 3], True, rounds=2, allupto=nm, chunks=both), MIXINVS),
+                                         lib.workdir("C31", "mix_small"), timeout=1500, workers=SMALL),
+        "mix_any": lambda: lib.run_tlc("ExecutorMix", mix_cfg(mix_consts(range(0, nm), [1, 2, 3], False, rounds=2, allupto=nm), MIXINVS),
+                                       lib.workdir("C31", "mix_any"), timeout=1500, workers=SMALL),
+        "mix_big": lambda: lib.run_tlc("ExecutorMix", mix_cfg(mix_consts([11, 12] if quick else [10, 11, 12, 13, 17], [2] if quick else [2, 3], True,
+                                                                         allupto=nm, chunks=both), MIXINVS[:-1], action_constraints=["SubmitFirst"]),
+                                       lib.workdir("C31", "mix_big"), timeout=1500, workers=SMALL if quick else None),
         "gen": lambda: lib.run_tlc("ExecutorGen", lib.cfg(constants=model_consts([n], wcounts, True, device=True, rounds=1),
                                                            invariants=INVS, constraints=["Emit"]), lib.workdir("C31", "gen"), timeout=1500, workers=SMALL),
         "mc_fifo": lambda: lib.run_tlc("Executor", lib.cfg(constants=model_consts(range(0, nm + 1), [1, 2, 3], True, device=True, rounds=2,
@@ -52,12 +93,23 @@ def tlc_models(tier, n, wcounts):
         jobs["bug:" + bug] = (lambda bug=bug, fifo=fifo: lib.run_tlc("Executor", lib.cfg(constants=model_consts(
             [3], [2], fifo, bug=bug, device=True, rounds=2, seeds="{5}"), invariants=["OrderPreserved", "Reproducible"]),
             lib.workdir("C31", "bug_" + bug), timeout=600, workers=2))
-    with cf.ThreadPoolExecutor(6) as tp:
+    for bug, (bad, good) in MIXBUGS.items():
+        for tag, kw in (("bad", bad), ("good", good)):
+            jobs[f"mixbug:{bug}:{tag}"] = (lambda bug=bug, kw=kw, tag=tag: lib.run_tlc("ExecutorMix", mix_cfg(
+                mix_consts(kw["tasks"], [2], True, rounds=kw["rounds"], filt=kw["filt"], bug=bug), ["MixOrderPreserved", "MixReproducible"],
+                action_constraints=["SubmitFirst"]), lib.workdir("C31", f"mixbug_{bug}_{tag}"), timeout=600, workers=2))
+    with cf.ThreadPoolExecutor(8) as tp:
         futs = {k: tp.submit(f) for k, f in jobs.items()}
         res = {k: f.result() for k, f in futs.items()}
-    for k in ("gen", "mc_fifo", "mc_any"):
+    for k in ("gen", "mc_fifo", "mc_any", "mix_gen", "mix_sim", "mix_small", "mix_any", "mix_big"):
         lib.require_ok(res[k], f"C31 model {k}")
     rejected = {}
+    for bug in MIXBUGS:
+        r, g = res[f"mixbug:{bug}:bad"], res[f"mixbug:{bug}:good"]
+        if r.invariant_violated not in ("MixOrderPreserved", "MixReproducible"):
+            raise MachineryError(f"model-level negative control: batch-layer variant {bug} not rejected ({r.invariant_violated}, {r.error})")
+        lib.require_ok(g, f"C31 batch-layer variant {bug} on the inputs on which it is correct")
+        rejected[bug] = r.invariant_violated
     for bug in BUGS:
         r = res["bug:" + bug]
         if r.invariant_violated not in ("OrderPreserved", "Reproducible"):
@@ -69,11 +121,12 @@ def tlc_models(tier, n, wcounts):
 def start_drivers(names):
     procs = {}
     for name in names:
+        gap = "0.01" if name == "inproc2" else "0.05"     # inproc2: batch-layer families (many executions, up to 21 tasks each)
         shutil.rmtree(lib.WORK / "C31" / f"drv_{name}", ignore_errors=True)
         wd = lib.workdir("C31", f"drv_{name}")
         procs[name] = (subprocess.Popen([PY, "-W", "ignore", "-m", "harness.c31_driver", str(wd / "job.json"), str(wd / "out.jsonl")],
                                         cwd=str(lib.VERIF), stdout=subprocess.DEVNULL, stderr=subprocess.PIPE, text=True,
-                                        start_new_session=True, env=dict(os.environ, VERIF_C31_DIR=str(wd), OMP_NUM_THREADS="1", VERIF_TURNSTILE_WAIT="150", VERIF_TURNSTILE_GAP="0.05")), wd)
+                                        start_new_session=True, env=dict(os.environ, VERIF_C31_DIR=str(wd), OMP_NUM_THREADS="1", VERIF_TURNSTILE_WAIT="150", VERIF_TURNSTILE_GAP=gap)), wd)
     return procs
 
 
@@ -128,22 +181,51 @@ def plan(tier, rng):
     return proc, thr, seeds
 
 
+def plan_batch(tier):
+    """Batch-layer families.  mix: configurations the compositions of the small batch rotate through (first entry: every
+    composition; the others: one each per composition pair), as (backend, max_workers, devices); mixproc: the same on
+    process pools (own driver process per device); big: (backend, max_workers, batch size, executions, devices)."""
+    if tier == "quick":
+        mix = [("cf_threadpool", 2, 2), ("cf_threadpool", 4, 2), ("serial", 1, 2), ("cf_threadpool", 1, 2), (None, None, 2)]
+        mixproc = []
+        big = [("mp_pool", 2, 12, 1, 2), ("cf_procpool", 2, 12, 1, 2), ("cf_threadpool", 2, 11, 2, 2), ("cf_threadpool", 4, 13, 2, 2),
+               (None, None, 12, 1, 2), ("serial", 1, 12, 1, 2)]
+    else:
+        mix = [("cf_threadpool", 2, 3), ("cf_threadpool", 4, 2), ("serial", 1, 2), ("cf_threadpool", 1, 2), (None, None, 2), ("cf_threadpool", 8, 2),
+               ("cf_threadpool", 3, 2)]
+        mixproc = [(be, w, 2) for be in ("mp_pool", "cf_procpool") for w in (2, 4)]
+        big = ([(be, w, nb, 1, 2) for be in ("mp_pool", "cf_procpool") for w, nb in ((2, 12), (4, 17), (2, 21), (1, 11))]
+               + [("cf_threadpool", w, nb, 2, 3) for w, nb in ((2, 11), (4, 13), (3, 17), (8, 21), (1, 12))]
+               + [(None, None, 17, 2, 2), ("serial", 1, 13, 2, 2)])
+    return mix, mixproc, big
+
+
+PROC = ("mp_pool", "cf_procpool")
+
+
 def run(tier, seed):
     rng = random.Random(seed)
     t0 = time.time()
     n = 4 if tier == "quick" else 5
     proc, thr, seeds = plan(tier, rng)
-    names = ["inproc"] + [f"{be}_w{w}_s{j}" for be, w, _, m in proc for j in range(m)]
-    procs = start_drivers(names if tier == "quick" else ["inproc"])
+    names = ["inproc", "inproc2"] + [f"{be}_w{w}_s{j}" for be, w, _, m in proc for j in range(m)]
+    procs = start_drivers(names if tier == "quick" else ["inproc", "inproc2"])
     try:
-        return _run(tier, rng, procs, proc, thr, seeds, n, t0)
+        return _run(tier, rng, procs, proc, thr, seeds, n, t0, seed)
     finally:
         kill_drivers(procs)
 
 
-def _run(tier, rng, procs, proc, thr, seeds, n, t0):
+def fa(mask):
+    return "".join("F" if b else "A" for b in mask)
+
+
+def _run(tier, rng, procs, proc, thr, seeds, n, t0, seed):
+    mix, mixproc, big = plan_batch(tier)
     wcounts = sorted({min(w or 1, n) for _, w, _, _ in proc + thr})
-    res, rejected = tlc_models(tier, n, wcounts)
+    mixw = sorted({min(w or 1, n) for _, w, _ in mix + mixproc})
+    bign, bigw = sorted({nb for _, _, nb, _, _ in big}), sorted({w or 1 for _, w, _, _, _ in big})
+    res, rejected = tlc_models(tier, n, wcounts, mixw, bign, bigw, 1000 + seed)
     t_models = time.time() - t0
     corders = {}
     for j in uniq([{"w": j["w"], "c": j["corders"][0]} for j in res["gen"].json_lines if j["n"] == n]):
@@ -153,46 +235,94 @@ def _run(tier, rng, procs, proc, thr, seeds, n, t0):
             raise MachineryError(f"no TLC schedule for {n} tasks x {w} workers")
         corders[w].sort()
     ident = list(range(1, n + 1))
+    # behaviours of the batch layer: (composition, pool size) -> completion orders; large batches: (n, w, pooled?) -> [(mask, order)]
+    mixsched, bigsched = {}, {}
+    for j in uniq([{"w": j["w"], "m": j["mask"], "c": j["corders"][0]} for j in res["mix_gen"].json_lines if j["n"] == n]):
+        mixsched.setdefault((tuple(j["m"]), j["w"]), []).append(j["c"])
+    for v in mixsched.values():
+        v.sort()
+    allmasks = sorted({m for m, _ in mixsched})
+    if len(allmasks) != 2 ** n or any((m, w) not in mixsched for m in allmasks for w in mixw):
+        raise MachineryError(f"ExecutorMixGen: {len(allmasks)} compositions of {n} circuits (expected {2 ** n}) / pool sizes missing")
+    simlines = sorted(uniq([{"n": j["n"], "w": j["w"], "k": j["chunk"], "m": j["mask"], "c": j["corders"][0]} for j in res["mix_sim"].json_lines]),
+                      key=lambda j: json.dumps(j, sort_keys=True))
+    for j in simlines:
+        bigsched.setdefault((j["n"], j["w"]), []).append(j)
 
     # ---- groups of sessions (same seed => same results), each session under its own schedules
     groups, jobs = [], {}
+
+    def add_group(family, be, w, sd, rounds, m, nn, sched_of, masks=None, wait=0, chunk=1):
+        """sched_of(r) -> list of TLC completion orders usable in execution r (0-based)."""
+        g = {"family": family, "backend": be, "w": w, "seed": sd, "rounds": rounds, "members": [], "variant": len(groups) % 3, "n": nn,
+             "masks": masks, "chunk": chunk}
+        idn = list(range(1, nn + 1))
+        for j in range(m):
+            rs = []
+            for r in range(rounds):
+                cw = sched_of(r)
+                nonid = [c for c in cw if c != idn] or [idn]
+                # session 0 follows out-of-order schedules, the others a seeded choice: pairwise different where possible
+                rs.append(nonid[(j * 5 + r * 3 + len(groups)) % len(nonid)] if (j + r) % 2 == 0 else rng.choice(cw))
+            name = f"{be}_w{w}_s{j}" if be in PROC else ("inproc" if family == "sched" else "inproc2")
+            sid = f"g{len(groups)}s{j}"
+            sess = {"sid": sid, "backend": be, "workers": w, "seed": sd, "n": nn, "variant": g["variant"], "rounds": rs}
+            if masks:
+                sess.update(masks=masks, wait=wait)
+            jobs.setdefault(name, {"sessions": []})["sessions"].append(sess)
+            g["members"].append((name, sid, rs))
+        groups.append(g)
+
     for kind, confs in (("proc", proc), ("thr", thr)):
         for be, w, rounds, m in confs:
             for sd in (seeds if kind == "thr" else seeds[:1]):
-                cw = corders[min(w or 1, n)]
-                nonid = [c for c in cw if c != ident] or [ident]
-                g = {"backend": be, "w": w, "seed": sd, "rounds": rounds, "members": [], "variant": len(groups) % 3}
-                for j in range(m):
-                    # session 0 follows out-of-order schedules, the others a seeded choice: pairwise different where possible
-                    rs = [nonid[(j * 5 + r * 3 + len(groups)) % len(nonid)] if (j + r) % 2 == 0 else rng.choice(cw) for r in range(rounds)]
-                    name = f"{be}_w{w}_s{j}" if kind == "proc" else "inproc"
-                    sid = f"g{len(groups)}s{j}"
-                    jobs.setdefault(name, {"sessions": []})["sessions"].append(
-                        {"sid": sid, "backend": be, "workers": w, "seed": sd, "n": n, "variant": g["variant"], "rounds": rs})
-                    g["members"].append((name, sid, rs))
-                groups.append(g)
+                add_group("sched", be, w, sd, rounds, m, n, lambda r, w=w: corders[min(w or 1, n)])
+    # compositions: every complement pair {m, ~m} of compositions is the history (execution 1, execution 2) of one device
+    # group on the first configuration and, in the opposite order, on one of the others
+    reps = [m for m in allmasks if m[0] == 0]
+    for k, m0 in enumerate(reps):
+        m1 = tuple(1 - b for b in m0)
+        for (be, w, nd), ms in ((mix[0], (m0, m1) if k % 2 == 0 else (m1, m0)), (mix[1 + k % (len(mix) - 1)], (m1, m0) if k % 2 == 0 else (m0, m1))):
+            add_group("mix", be, w, seeds[0], 2, nd, n, lambda r, w=w, ms=ms: mixsched[(ms[r], min(w or 1, n))], masks=[list(x) for x in ms], wait=20)
+    for k, (be, w, nd) in enumerate(mixproc):
+        m0 = reps[(k * 3 + 1) % len(reps)]
+        ms = (m0, tuple(1 - b for b in m0))
+        add_group("mix", be, w, seeds[0], 2, nd, n, lambda r, w=w, ms=ms: mixsched[(ms[r], min(w or 1, n))], masks=[list(x) for x in ms], wait=20)
+    # large batches: composition and completion orders from TLC's simulated behaviours of (n, w, chunked or not)
+    for k, (be, w, nb, rounds, nd) in enumerate(big):
+        lines = bigsched.get((nb, w or 1), [])
+        kmax = max([j["k"] for j in lines], default=0)
+        lines = [j for j in lines if j["k"] == (kmax if be == "mp_pool" else 1)]     # multiprocessing.Pool.map chops the batch into chunks
+        if not lines:
+            raise MachineryError(f"no simulated TLC behaviour for a batch of {nb} on {w} workers ({be})")
+        ms = [lines[(k + 7 * r) % len(lines)]["m"] for r in range(rounds)]
+        add_group("big", be, w, seeds[0], rounds, nd, nb, lambda r, lines=lines: [j["c"] for j in lines], masks=ms, wait=20, chunk=lines[0]["k"])
+
     if tier == "thorough":
-        # process-pool drivers in waves of 8 (each spawns up to 8 workers that import pennylane)
+        # process-pool drivers in waves of 6 (each spawns up to 8 workers that import pennylane)
         got = {}
-        pnames = [k for k in jobs if k != "inproc"]
-        got.update(run_drivers({"inproc": procs["inproc"]}, jobs, timeout=600))
+        pnames = [k for k in jobs if k not in ("inproc", "inproc2")]
+        got.update(run_drivers({k: procs[k] for k in ("inproc", "inproc2")}, jobs, timeout=900))
         for i in range(0, len(pnames), 6):
             wave = start_drivers(pnames[i:i + 6])
             try:
-                got.update(run_drivers(wave, jobs, timeout=900))
+                got.update(run_drivers(wave, jobs, timeout=1200))
             finally:
                 kill_drivers(wave)
     else:
-        got = run_drivers(procs, jobs, timeout=400)      # generous: a loaded machine must not turn into a machinery failure
+        got = run_drivers(procs, jobs, timeout=500)      # generous: a loaded machine must not turn into a machinery failure
     t_drivers = time.time() - t0 - t_models
 
     # ---- traces
     traces, tmeta = [], []
     realised = set()
-    fully, nruns, seeds_equal, seeds_checked = 0, 0, 0, 0
+    fully, nruns, seeds_equal, seeds_checked, nevals = 0, 0, 0, 0, 0
+    unseeded_finite, finite_tasks = 0, 0
     for gi, g in enumerate(groups):
         runs, same, first = [], [], {}
         seedseq = {}
+        gn = g["n"]
+        g["stats"] = {"realised": 0, "out_of_order": 0}
         for name, sid, rs in g["members"]:
             recs, logs, err = got[name]
             for r, corder in enumerate(rs, start=1):
@@ -208,17 +338,25 @@ def _run(tier, rng, procs, proc, thr, seeds, n, t0):
                 else:
                     first[r] = idx
                 nruns += 1
-                fully += len(evs) == 2 * n
+                nevals += gn
+                fully += len(evs) == 2 * gn
                 ends = [e["i"] for e in evs if e["e"] == "e"]
+                g["stats"]["realised"] += ends == corder
+                g["stats"]["out_of_order"] += ends != sorted(ends)
                 if ends == corder and ends != sorted(ends):
-                    realised.add((g["backend"], g["w"], tuple(ends)))
-                sq = tuple(e["seed"] for e in sorted((e for e in evs if e["e"] == "s"), key=lambda e: e["i"]))
+                    realised.add((g["family"], g["backend"], g["w"], gn, tuple(ends)))
+                starts = sorted((e for e in evs if e["e"] == "s"), key=lambda e: e["i"])
+                sq = tuple(e["seed"] for e in starts)
+                if g["masks"] and g["w"] is not None:       # mechanism, evidence only: finite-shot circuits that were handed no seed
+                    mk = g["masks"][r - 1]
+                    finite_tasks += sum(1 for e in starts if mk[e["i"] - 1])
+                    unseeded_finite += sum(1 for e in starts if mk[e["i"] - 1] and e["seed"] < 0)
                 if r in seedseq:
                     seeds_checked += 1
                     seeds_equal += seedseq[r] == sq
                 else:
                     seedseq[r] = sq
-        traces.append({"n": n, "w": min(g["w"] or 1, n), "kind": "opaque", "same": same,
+        traces.append({"n": gn, "w": min(g["w"] or 1, gn), "kind": "opaque", "same": same, "masks": g["masks"] or [],
                        "runs": [{k: v for k, v in r.items() if not k.startswith("_")} for r in runs]})
         tmeta.append((g, runs))
 
@@ -226,25 +364,35 @@ def _run(tier, rng, procs, proc, thr, seeds, n, t0):
     neg = []
 
     def passes(t):       # only a trace that passes can serve as the base of a negative control
+        tn = t["n"]
         for r in t["runs"]:
             done = {e["i"]: e["v"] for e in r["ev"] if e["e"] == "e"}
-            if r["exc"] or not r["flags"] or len(r["out"]) != n or len(r["ev"]) != 2 * n or any(r["out"][k - 1] != done.get(k) for k in range(1, n + 1)):
+            if r["exc"] or not r["flags"] or len(r["out"]) != tn or len(r["ev"]) != 2 * tn or any(r["out"][k - 1] != done.get(k) for k in range(1, tn + 1)):
                 return False
         return all(t["runs"][a - 1]["out"] == t["runs"][b - 1]["out"] for a, b in t["same"])
 
-    def corrupt(f):
-        for t in traces[:len(groups)]:
-            if len(t["runs"]) >= 2 and t["same"] and passes(t):
+    def corrupt(f, want, family="sched"):
+        for gi, t in enumerate(traces[:len(groups)]):
+            if groups[gi]["family"] == family and len(t["runs"]) >= 2 and t["same"] and passes(t):
                 bad = json.loads(json.dumps(t))
                 f(bad)
-                neg.append(len(traces))
+                neg.append((len(traces), want))
                 traces.append(bad)
                 return
-    corrupt(lambda b: b["runs"][0].__setitem__("out", [b["runs"][0]["out"][1], b["runs"][0]["out"][0]] + b["runs"][0]["out"][2:]))   # swapped positions
-    corrupt(lambda b: b["runs"][b["same"][0][1] - 1]["out"].__setitem__(0, b["runs"][b["same"][0][1] - 1]["out"][0] + 1) or
-            b["runs"][b["same"][0][1] - 1].__setitem__("ev", [dict(e, v=e["v"] + 1) if e["e"] == "e" and e["i"] == 1 else e
-                                                              for e in b["runs"][b["same"][0][1] - 1]["ev"]]))      # second device differs
-    corrupt(lambda b: b["runs"][-1].__setitem__("flags", False))                                                     # analytic != serial
+
+    def swap(b, i, j):
+        o = b["runs"][0]["out"]
+        o[i], o[j] = o[j], o[i]
+
+    def second_differs(b, pos):      # the second device of the first same-seed pair computed and returned something else at `pos` (1-based)
+        run = b["runs"][b["same"][0][1] - 1]
+        run["out"][pos - 1] += 1
+        run["ev"] = [dict(e, v=e["v"] + 1) if e["e"] == "e" and e["i"] == pos else e for e in run["ev"]]
+    corrupt(lambda b: swap(b, 0, 1), "order")                                            # swapped positions
+    corrupt(lambda b: second_differs(b, 1), "repro")                                     # second device differs
+    corrupt(lambda b: b["runs"][-1].__setitem__("flags", False), "flag")                 # analytic != serial
+    corrupt(lambda b: swap(b, 2, 10), "order", "big")                                    # positions 3 and 11 of a large batch exchanged
+    corrupt(lambda b: second_differs(b, 1 + (b["masks"][0].index(1) if 1 in b["masks"][0] else 0)), "repro", "mix")   # a (finite-shot) result of the second device
     wd = lib.workdir("C31", "trace")
     (wd / "traces.json").write_text(json.dumps(traces))
     rt = lib.run_tlc("Trace_Executor", lib.cfg(init="TInit", next_="TNext", constants=dict(model_consts([0], [1], True), NTRACES=len(traces))),
@@ -253,49 +401,78 @@ def _run(tier, rng, procs, proc, thr, seeds, n, t0):
     verd = {t[1] - 1: (t[2], t[3]) for t in rt.tuples if t[0] == "V"}
     if len(verd) != len(traces):
         raise MachineryError(f"verdicts not total: {len(verd)}/{len(traces)}")
-    want = ["order", "repro", "flag"]
-    gotneg = [verd[i][0] for i in neg]
-    if gotneg != want[:len(neg)] or (not neg and any(verd[i][0] == "ok" for i in range(len(groups)))):
-        raise MachineryError(f"negative controls: expected verdicts {want}, got {gotneg}")
+    gotneg = [(verd[i][0], want) for i, want in neg]
+    if any(a != b for a, b in gotneg) or (not neg and any(verd[i][0] == "ok" for i in range(len(groups)))):
+        raise MachineryError(f"negative controls: (verdict, expected) = {gotneg}")
 
     # ---- verdicts
     viol, drift = [], 0
     samples = []
+    fam_seen = set()
     for gi, (g, runs) in enumerate(tmeta):
         v, d = verd[gi]
         drift += d
+        gn = g["n"]
+        pattern = "+".join(fa(m) for m in g["masks"]) if g["masks"] else ""
         if v != "ok":
             be = g["backend"] or "none"
-            detail = (f"clause '{v}' fails for default.qubit(seed={g['seed']}, max_workers={g['w']}) on backend {be}, batch of {n} circuits, "
+            what = {"sched": f"batch of {gn} circuits", "mix": f"batch of {gn} circuits with shots pattern per execution {pattern} (F finite shots, A analytic)",
+                    "big": f"batch of {gn} circuits with shots pattern per execution {pattern}"}[g["family"]]
+            detail = (f"clause '{v}' fails for default.qubit(seed={g['seed']}, max_workers={g['w']}) on backend {be}, {what}, "
                       f"{len(g['members'])} devices x {g['rounds']} executions; per run (session.round, intended completion order, returned digests, "
                       f"exception, flags): " + "; ".join(f"{r['_sid']}.{r['_round']} {r['intended']} {r['out']} {r['exc'] or '-'} "
                                                          f"{'ok' if r['flags'] else 'analytic/shape differs'}" for r in runs))
-            viol.append(Violation(key=f"{v}:{be}:w{g['w']}", detail=detail, replay={
-                "group": {k: g[k] for k in ("backend", "w", "seed", "rounds", "variant")}, "n": n,
+            key = f"{v}:{be}:w{g['w']}" + {"sched": "", "mix": f":shots={pattern}", "big": f":n{gn}"}[g["family"]]
+            viol.append(Violation(key=key, detail=detail, replay={
+                "group": {k: g[k] for k in ("family", "backend", "w", "seed", "rounds", "variant", "masks")}, "n": gn,
                 "runs": [{"session": r["_sid"], "round": r["_round"], "intended": r["intended"], "returned_digests": r["out"], "exc": r["exc"],
                           "record": r["_rec"], "events": [(e["e"], e["i"], e["pid"], e["seq"], e.get("seed", e.get("v"))) for e in r["_evs"]]} for r in runs]}))
-        if len(samples) < 3 and g["backend"] in ("mp_pool", "cf_procpool", "cf_threadpool") and (g["w"] or 1) > 1:
+        interesting = g["backend"] in ("mp_pool", "cf_procpool", "cf_threadpool") and (g["w"] or 1) > 1
+        if interesting and ((g["family"] == "sched" and len(samples) < 3) or (g["family"] != "sched" and g["family"] not in fam_seen)):
+            fam_seen.add(g["family"])
             r = runs[0]
-            samples.append({"backend": g["backend"], "max_workers": g["w"], "seed": g["seed"], "completion_order": r["intended"],
-                            "events": [f"{e['e']}{e['i']}@pid{e['pid']}#{e['seq']}" for e in r["_evs"]], "returned_digests": r["out"],
-                            "verdict": v, "devices_compared": len(g["members"])})
+            samples.append({"family": g["family"], "backend": g["backend"], "max_workers": g["w"], "seed": g["seed"], "batch": gn, "shots_pattern": pattern,
+                            "completion_order": r["intended"], "events": [f"{e['e']}{e['i']}@pid{e['pid']}#{e['seq']}" for e in r["_evs"]],
+                            "returned_digests": r["out"], "verdict": v, "devices_compared": len(g["members"])})
     # ---- vacuity
     need = {(be, w) for be, w, _, _ in proc + thr if be in ("mp_pool", "cf_procpool", "cf_threadpool") and (w or 1) > 1}
-    have = {(k[0], k[1]) for k in realised}
+    have = {(k[1], k[2]) for k in realised if k[0] == "sched"}
     if need - have and not viol:
         raise MachineryError(f"vacuity: no out-of-order completion realised for {sorted(need - have)}")
     if fully < 0.9 * nruns and not viol:
         raise MachineryError(f"vacuity: only {fully}/{nruns} executions fully observed in the worker logs")
+    mixg = [g for g in groups if g["family"] == "mix"]
+    bigg = [g for g in groups if g["family"] == "big"]
+    run_masks = {tuple(m) for g in mixg for m in g["masks"]}
+    if run_masks != set(allmasks):
+        raise MachineryError(f"vacuity: {len(run_masks)}/{len(allmasks)} compositions executed")
+    thr_big = [g for g in bigg if g["backend"] == "cf_threadpool" and (g["w"] or 1) > 1]
+    if thr_big and not any(g["stats"]["out_of_order"] for g in thr_big) and not viol:
+        raise MachineryError("vacuity: no out-of-order completion in any large thread-pool batch")
     tl = list(res.values()) + [rt]
     cov = {"states": sum(t.distinct for t in tl), "transitions": sum(t.generated for t in tl),
-           "traces_validated_against_impl": nruns, "evaluations": nruns * n, "distinct_nontrivial": len(realised),
-           "rule": "non-trivial = distinct (backend, max_workers, completion order) where TLC's completion order is not the batch order and the "
-                   "worker logs show exactly this order happened in a real default.qubit execution",
+           "traces_validated_against_impl": nruns, "evaluations": nevals, "distinct_nontrivial": len(realised),
+           "rule": "non-trivial = distinct (family, backend, max_workers, batch size, completion order) where TLC's completion order is not the batch "
+                   "order and the worker logs show exactly this order happened in a real default.qubit execution",
            "samples": samples, "exhaustive": False,
            "model": {"module": "Executor (device layer)", "batch": n, "states_fifo_2rounds": res["mc_fifo"].distinct,
-                     "states_any_dispatch_2rounds": res["mc_any"].distinct, "invariants": INVS, "bug_variants_rejected": rejected},
-           "configurations": [{"backend": g["backend"], "max_workers": g["w"], "seed": g["seed"], "devices": len(g["members"]),
+                     "states_any_dispatch_2rounds": res["mc_any"].distinct, "invariants": INVS, "bug_variants_rejected": rejected,
+                     "batch_layer": {"module": "ExecutorMix", "invariants": MIXINVS,
+                                     "states_all_compositions_fifo_2rounds": res["mix_small"].distinct,
+                                     "states_all_compositions_any_dispatch_2rounds": res["mix_any"].distinct,
+                                     "states_large_batches": res["mix_big"].distinct,
+                                     "variants_accepted_on_restricted_inputs": sorted(MIXBUGS)}},
+           "configurations": [{"family": g["family"], "backend": g["backend"], "max_workers": g["w"], "seed": g["seed"], "batch": g["n"],
+                               "shots_pattern_per_execution": [fa(m) for m in g["masks"]] if g["masks"] else "fixed", "devices": len(g["members"]),
                                "executions_each": g["rounds"]} for g in groups],
+           "compositions": {"batch": n, "from_tlc": len(allmasks), "executed": len(run_masks),
+                            "analytic_first_then_finite": sum(1 for m in run_masks if m[0] == 0 and any(m)),
+                            "device_groups": len(mixg), "behaviours_from_tlc": sum(len(v) for v in mixsched.values())},
+           "large_batches": [{"backend": g["backend"], "max_workers": g["w"], "batch": g["n"], "chunk": g["chunk"], "devices": len(g["members"]),
+                              "executions_each": g["rounds"], "intended_order_realised": g["stats"]["realised"],
+                              "runs_completing_out_of_order": g["stats"]["out_of_order"]} for g in bigg],
+           "simulated_behaviours_from_tlc": len(simlines),
+           "finite_shot_tasks_without_seed": f"{unseeded_finite}/{finite_tasks}",
            "schedules_from_tlc": {str(w): len(c) for w, c in corders.items()}, "executions": nruns, "executions_fully_observed": fully,
            "same_seed_pairs_with_equal_seed_sequences": f"{seeds_equal}/{seeds_checked}", "model_drift": {
                "start_not_head_of_queue_as_logged": drift % 1000, "more_than_w_observed_running": drift // 1000 % 1000, "other": drift // 1000000},
@@ -303,5 +480,8 @@ def _run(tier, rng, procs, proc, thr, seeds, n, t0):
            "phase_s": {"tlc_models": round(t_models, 1), "drivers": round(t_drivers, 1), "trace_validation": round(time.time() - t0 - t_models - t_drivers, 1)}}
     return CheckResult(coverage=cov, violations=viol, assumptions=[
         "finite-shot results are compared through exact digests of the returned arrays; analytic results against max_workers=None at 1e-10",
-        "schedule independence is exercised on batches of " + str(n) + " small circuits; the turnstile delays a task after it computed its result",
+        "schedule independence is exercised on batches of " + str(n) + " small circuits (every completion order) and of " + ", ".join(map(str, bign))
+        + " circuits (simulated completion orders); the turnstile delays a task after it computed its result",
+        "two executions that do not share their seed are assumed to return different samples (every finite-shot circuit of the composed batches "
+        "has more than 20 bits of sampling entropy)",
         "shot results are not required to agree between different worker counts / backends (the statement fixes seed, backend and worker count)"])
